@@ -45,7 +45,6 @@ func rev(s []int) []int {
 	return o
 }
 
-
 // ToSlices converts model slice arguments to library slice arguments.
 func ToSlices(sls []ref.Sl) []tensor.Slice {
 	out := make([]tensor.Slice, len(sls))
